@@ -17,7 +17,10 @@ RULE = ("Hypothesis draws a Hermitian operator (real symmetric / complex Hermiti
         "last column; the first j columns span K_j(M,v); cols <= min(max_iters,n); when the Krylov space is exhausted "
         "(max_iters >= grade g, tol above rounding) cols == g and eig(T) is a sub-multiset of eig(M); lanczos_eigs ascending "
         "and consistent with T; batched == per-column when nothing terminates early. Non-trivial: truncated (max_iters < g), "
-        "early termination, repeated/clustered spectrum, complex, batched, or structured operator.")
+        "early termination, repeated/clustered spectrum, complex, batched, or structured operator."
+        " Further: tolerance 0 with generic starts, pbar=True, sub-check alg_object (Lanczos(...)(A) after the same"
+        " object was applied to a smaller operator), batched members living in blocks of very different scale (none"
+        " may be stopped by another member's scale).")
 ASSUMPTIONS = [
     "tolerances relative to max(1e-10, 10 tol) * max(1, |M|) because cola clips normalisations at tol/2",
     "the grade g is computed densely with threshold 1e-11; cases whose (g+1)-th Krylov vector has relative norm within [1e-13, 100 tol] are borderline and counted inconclusive for the early-termination checks",
